@@ -287,6 +287,22 @@ SendUni(p, cls, snd) ==
 
 UniStep == \E p \in Rcv, cls \in {"S", "L"}, snd \in 1..NS : SendUni(p, cls, snd)
 
+\* a datagram with a wrong checksum arrives for a receiver with a parked read and an empty queue: the socket polls
+\* readable; the receive call that meets the datagram discards it and reports would-block (Linux verifies the
+\* checksum of datagrams longer than 76 bytes only when they are copied out)
+Corrupt(p) ==
+  /\ "corrupt" \in Acts /\ (Kind = "pc" \/ bnd[p] = "solo")
+  /\ rr[p].st = "parked" /\ kq[p] = <<>>
+  /\ kq' = [kq EXCEPT ![p] = <<[did |-> nd, cls |-> "C", src |-> "uni", sport |-> 0]>>]
+  /\ nd' = nd + 1
+  /\ Emit(<<[EvSend(IF Kind = "pc" THEN BindIp(bnd[1]) ELSE "uni", IF Kind = "pc" THEN RPort ELSE 30 + p, 0,
+                     IF Kind = "pc" THEN "lo" ELSE "uni", 0, nd, "C") EXCEPT !.loop = 0, !.len = 0]>>,
+          [a |-> "Corrupt", p |-> p])
+  /\ Tick
+  /\ UNCHANGED <<km, rr, ws, wp, bnd, wb, nop>>
+
+CorruptStep == \E p \in Rcv : Corrupt(p)
+
 SendStep ==
   /\ "send" \in Acts
   /\ \E cls \in {"S", "L"} :
@@ -425,17 +441,22 @@ WSetStep ==
 
 \* ------------------------------------------------------------------- poll
 Ready == {p \in Rcv : rr[p].st = "parked" /\ kq[p] # <<>>}
+\* recvfrom discards corrupt datagrams it meets and goes on to the next one (Linux: "goto try_again"); with nothing
+\* behind them it reports would-block and the read is parked again
+RECURSIVE Strip(_)
+Strip(q) == IF q # <<>> /\ Head(q).cls = "C" THEN Strip(Tail(q)) ELSE q
+Spurious == {p \in Ready : Strip(kq[p]) = <<>>}
 
 ReadyEvents ==
   Flat([p \in Rcv |->
-     IF p \in Ready
-       THEN <<EvRdDone(p, rr[p].op, rr[p].api, Head(kq[p]),
+     IF p \in Ready \ Spurious
+       THEN <<EvRdDone(p, rr[p].op, rr[p].api, Head(Strip(kq[p])),
                        IF BUG_StaleBuffer THEN rr[p].buf0 ELSE rr[p].cur, 0)>>
        ELSE <<>>])
 
 Poll ==
   /\ Ready # {} \/ wp.op # 0
-  /\ LET kq1 == [p \in Rcv |-> IF p \in Ready THEN Tail(kq[p]) ELSE kq[p]]
+  /\ LET kq1 == [p \in Rcv |-> IF p \in Spurious THEN <<>> ELSE IF p \in Ready THEN Tail(Strip(kq[p])) ELSE kq[p]]
          wev == IF wp.op = 0 THEN <<>> ELSE WrEvents(wp.op, wp.api, wp.g, wp.did, wp.cls)
      IN
      /\ kq' = IF wp.op # 0 /\ Kind = "mc" /\ ws.kloop /\ wp.cls # "X"
@@ -444,8 +465,8 @@ Poll ==
                                       ELSE kq1[p]]
                 ELSE kq1
      /\ Emit(ReadyEvents \o wev,
-             [a |-> "Poll", x |-> SeqOfSet(Ready), w |-> (wp.op # 0)])
-  /\ rr' = [p \in Rcv |-> IF p \in Ready THEN Idle ELSE rr[p]]
+             [a |-> "Poll", x |-> SeqOfSet(Ready \ Spurious), w |-> (wp.op # 0)])
+  /\ rr' = [p \in Rcv |-> IF p \in Ready \ Spurious THEN Idle ELSE rr[p]]
   /\ wp' = [op |-> 0, g |-> "", did |-> 0, cls |-> "", api |-> ""]
   /\ UNCHANGED <<km, ws, bnd, wb, nd, nop, steps>>
 
@@ -454,7 +475,7 @@ Step ==
   /\ UNCHANGED done
   /\ \/ Poll
      \/ /\ steps < MaxSteps
-        /\ (MemStep \/ SendStep \/ UniStep \/ BurstStep \/ RdStep \/ WrStep \/ WSetStep)
+        /\ (MemStep \/ SendStep \/ UniStep \/ CorruptStep \/ BurstStep \/ RdStep \/ WrStep \/ WSetStep)
 
 Finish == /\ ~done /\ done' = TRUE /\ UNCHANGED <<implvars, m, hist>>
 
